@@ -10,6 +10,13 @@ Observed at the command line.  Three parts:
  (B) discovery: config files (.pyscn.toml, pyproject.toml with / without [tool.pyscn]) at every level between the
      target and a scratch root, target given as directory or file, cwd = target / elsewhere (with its own configs),
      --config file / missing / directory; every file carries a distinct value, so the echo names the file used.
+ (B') the TYPE of the discovered file: at every place of those chains (target directory and each ancestor, the working directory's chain,
+     the directory given to --config, the file given to --config) the configuration file is a regular file or is reached through a
+     symbolic link (relative to a file inside / outside the project, absolute, chain of two links), in the combinations the precedence
+     rules distinguish (link nearer vs regular file further up and the reverse; linked .pyscn.toml beside regular pyproject.toml and the
+     reverse; both linked), each layout from several working directories; a readable file reached through a link IS the file of that
+     place, so the model / spec term is the one of the regular-file layout.  Negative names (dangling link, link to itself, a directory
+     called .pyscn.toml / pyproject.toml) on top of regular files: passed over or refused, the same from every cwd, no crash.
  (C) `pyscn init`: analysis results of sample projects with and without the generated file (differential; TOML
      parsing is not modelled).
 
@@ -327,27 +334,75 @@ def disc_toml(cmd, v, prefix):
     return "[%scomplexity]\nmax_complexity = %d\n" % (prefix, v)
 
 
-def place_configs(cmd, where, dirs, states):
-    """dirs: list of directories nearest-first; writes the files; returns {value: (where, level, kind)}."""
+# How a configuration file is present at its place.  The property speaks of "the configuration file" at a place: a readable file reached
+# through symbolic link(s) IS the file at that place (the abstract state of Cli/Discovery.v is the same as for a regular file).
+#   reg      a regular file
+#   rel_in   relative link to a file in a sub-directory next to it (inside the project)
+#   rel_out  relative link to a file in a directory outside every searched chain (a shared team configuration)
+#   abs      absolute link to such a file
+#   chain    relative link -> absolute link -> file
+LINK_HOWS = ["rel_in", "rel_out", "abs", "chain"]
+# names that are NOT a configuration file: a link to nothing, a link to itself, a directory
+NEG_KINDS = ["dangling", "loop", "dir"]
+CONFIG_NAMES = {"pyscn": ".pyscn.toml", "pyproject": "pyproject.toml"}
+
+
+def put_config(path, text, how, shared):
+    """makes `path` name a readable file with this text, as a regular file or through symbolic link(s)."""
+    if how in (None, "reg"):
+        with open(path, "w") as f:
+            f.write(text)
+        return
+    tag = os.path.relpath(path, os.path.dirname(shared)).replace(os.sep, "_").replace(".", "")
+    store = os.path.join(os.path.dirname(path), "cfgstore") if how == "rel_in" else shared
+    os.makedirs(store, exist_ok=True)
+    real = os.path.join(store, "real_%s.toml" % tag)
+    with open(real, "w") as f:
+        f.write(text)
+    if how in ("rel_in", "rel_out"):
+        os.symlink(os.path.relpath(real, os.path.dirname(path)), path)
+    elif how == "abs":
+        os.symlink(os.path.abspath(real), path)
+    elif how == "chain":
+        mid = os.path.join(shared, "via_%s.toml" % tag)
+        os.symlink(os.path.abspath(real), mid)
+        os.symlink(os.path.relpath(mid, os.path.dirname(path)), path)
+    else:
+        raise KeyError(how)
+
+
+def put_negative(path, kind):
+    """makes `path` exist as a name that is no configuration file."""
+    if kind == "dangling":
+        os.symlink(os.path.join("nowhere", "gone.toml"), path)
+    elif kind == "loop":
+        os.symlink(os.path.basename(path), path)
+    elif kind == "dir":
+        os.makedirs(path)
+    else:
+        raise KeyError(kind)
+
+
+def place_configs(cmd, where, dirs, states, hows=None, shared=None):
+    """dirs: list of directories nearest-first; writes the files; returns {value: (where, level, kind)}.
+    hows: per level [how of .pyscn.toml, how of pyproject.toml] (see LINK_HOWS), None = regular files."""
     ids = {}
     for lvl, (dd, st) in enumerate(zip(dirs, states)):
         os.makedirs(dd, exist_ok=True)
+        hp, ht = (hows[lvl] if hows and lvl < len(hows) and hows[lvl] else ("reg", "reg"))
         if st in ("pyscn", "both", "pyscn+plain"):
             v = disc_value(cmd, disc_id(where, lvl, "pyscn"))
-            with open(os.path.join(dd, ".pyscn.toml"), "w") as f:
-                f.write(disc_toml(cmd, v, ""))
+            put_config(os.path.join(dd, ".pyscn.toml"), disc_toml(cmd, v, ""), hp, shared)
             ids[v] = (where, lvl, "pyscn")
         if st in ("tool", "both"):
             v = disc_value(cmd, disc_id(where, lvl, "pyproject"))
-            with open(os.path.join(dd, "pyproject.toml"), "w") as f:
-                f.write("[project]\nname = \"x\"\n\n" + disc_toml(cmd, v, "tool.pyscn."))
+            put_config(os.path.join(dd, "pyproject.toml"), "[project]\nname = \"x\"\n\n" + disc_toml(cmd, v, "tool.pyscn."), ht, shared)
             ids[v] = (where, lvl, "pyproject")
         if st in ("plain", "pyscn+plain"):
             # a pyproject.toml that is not pyscn's: another tool's table, no [tool] table at all, or not even TOML
             texts = ["[project]\nname = \"x\"\n\n[tool.other]\nmin_cbo = 77\n", "[project]\nname = \"x\"\n\n[build-system]\nrequires = []\n",
                      "[project\nname = x\n[tool.pyscn.cbo]\nmin_cbo = 78\n"]
-            with open(os.path.join(dd, "pyproject.toml"), "w") as f:
-                f.write(texts[(lvl + len(dirs) + len(where)) % 3])
+            put_config(os.path.join(dd, "pyproject.toml"), texts[(lvl + len(dirs) + len(where)) % 3], ht, shared)
     return ids
 
 
@@ -357,13 +412,15 @@ def run_discovery_case(args):
     shutil.rmtree(d, ignore_errors=True)
     cmd = case["cmd"]
     tdirs = [os.path.join(d, *(["r", "a", "b"][:len(case["target"]) - i])) for i in range(len(case["target"]))]
-    ids = place_configs(cmd, "target", tdirs, case["target"])
+    hows = case.get("hows") or {}
+    shared = os.path.join(d, "shared")
+    ids = place_configs(cmd, "target", tdirs, case["target"], hows.get("target"), shared)
     write_project(tdirs[0], ["cbomod.py", "cxmod.py"])
     cwd = tdirs[0]
     target = "."
     if case["cwd"] is not None:
         cdirs = [os.path.join(d, "w", "x"), os.path.join(d, "w")]
-        ids.update(place_configs(cmd, "cwd", cdirs, case["cwd"]))
+        ids.update(place_configs(cmd, "cwd", cdirs, case["cwd"], hows.get("cwd"), shared))
         cwd = cdirs[0]
         target = os.path.relpath(tdirs[0], cwd)
     if case["target_file"]:
@@ -376,16 +433,25 @@ def run_discovery_case(args):
         ep = os.path.join(d, "e", names[(sum(len(x) for x in case["target"]) + (1 if cmd == "check" else 0) + (2 if case["cwd"] else 0)) % len(names)])
         os.makedirs(os.path.dirname(ep), exist_ok=True)
         v = disc_value(cmd, 40)
-        with open(ep, "w") as f:
-            f.write(disc_toml(cmd, v, ""))
+        put_config(ep, disc_toml(cmd, v, ""), case.get("explicit_how"), shared)
         ids[v] = ("explicit", 0, "file")
         argv += ["--config", ep]
     elif ex == "missing":
-        argv += ["--config", os.path.join(d, "e", "nothing.toml")]
+        ep = os.path.join(d, "e", "nothing.toml")
+        if case.get("explicit_how"):     # the name exists, but names nothing: a link to nothing / to itself
+            os.makedirs(os.path.dirname(ep), exist_ok=True)
+            put_negative(ep, case["explicit_how"])
+        argv += ["--config", ep]
     elif ex is not None:   # a directory, states given
         edirs = [os.path.join(d, "e", "sub"), os.path.join(d, "e")]
-        ids.update(place_configs(cmd, "exdir", edirs, ex))
-        argv += ["--config", edirs[0]]
+        ids.update(place_configs(cmd, "exdir", edirs, ex, hows.get("exdir"), shared))
+        given = edirs[0]
+        if case.get("exdir_via_link"):   # the directory is named through a link beside it (same ancestors)
+            given = os.path.join(d, "e", "sublink")
+            os.symlink("sub", given)
+        argv += ["--config", given]
+    for where, lvl, name, kind in case.get("neg") or []:
+        put_negative(os.path.join(tdirs[lvl] if where == "target" else cdirs[lvl], CONFIG_NAMES[name]), kind)
     if cmd == "analyze":
         rc, data, err = run_analyze(None, argv, target=target, cwd=cwd)
         got = observe(data)["cbo"]["min_cbo"] if data and data.get("cbo") else None
@@ -393,8 +459,9 @@ def run_discovery_case(args):
         rc, lines, err = run_check(None, argv, target=target, cwd=cwd)
         lim = sorted({l[1] for l in lines})
         got = lim[0] if len(lim) == 1 else None
+    crash = rc < 0 or bool(re.search(r"panic:|goroutine \d+ \[|fatal error:|SIGSEGV", err))
     res = dict(rc=rc, got=got, ids={str(k): v for k, v in ids.items()}, argv=[cmd] + argv + [target], stderr=err[:300] + " ... " + err[-200:],
-               cwd=os.path.relpath(cwd, d))
+               cwd=os.path.relpath(cwd, d), crash=crash)
     shutil.rmtree(d, ignore_errors=True)
     return res
 
@@ -523,6 +590,108 @@ def discovery_cases(rng, thorough):
         c = rng.choice([None, None, [rng.choice(STATES), rng.choice(four)]])
         cs.append(mk(rng.choice(["analyze", "check"]), t, cwd=c, target_file=rng.random() < 0.3))
     return cs
+
+
+def filetype_cases(rng, thorough):
+    """(B') the TYPE of the discovered file: every place of the chains of (B) holds its configuration file as a regular file or through a
+    symbolic link (LINK_HOWS), in every combination the precedence rules distinguish; the abstract layout (and so the model / spec term) is
+    the one of the regular-file case.  Negative names (NEG_KINDS) are added on top of a layout of regular files."""
+    cs = []
+    CWDS = [None, ("none", "none"), ("pyscn", "none"), ("none", "tool")]
+    counter = [0]
+
+    def mk(target, hows_t, cwd=None, hows_c=None, explicit=None, **more):
+        counter[0] += 1
+        n = counter[0]
+        c = dict(cmd=more.pop("cmd", "analyze" if n % 2 else "check"), target=list(target), cwd=None if cwd is None else list(cwd),
+                 explicit=explicit, target_file=more.pop("target_file", n % 4 == 0), filetype=True)
+        h = {}
+        if hows_t:
+            h["target"] = [list(x) if x else None for x in hows_t]
+        if hows_c:
+            h["cwd"] = [list(x) if x else None for x in hows_c]
+        if "hows_e" in more:
+            h["exdir"] = [list(x) if x else None for x in more.pop("hows_e")]
+        if h:
+            c["hows"] = h
+        c.update(more)
+        return c
+
+    def from_cwds(target, hows_t, k, **more):
+        """the same layout from several working directories: the target itself, elsewhere without and elsewhere with its own configuration."""
+        which = CWDS if thorough else [CWDS[0], CWDS[1 + k % 3]]
+        cmds = ("analyze", "check") if thorough else (("analyze", "check")[k % 2],)
+        for cmd in cmds:
+            for w in which:
+                cs.append(mk(target, hows_t, cwd=w, cmd=cmd, target_file=(k % 4 == 3), **more))
+
+    def chain(entries):
+        """entries: {level: (kind, how)} or {level: [(kind, how), (kind, how)]} -> (states, hows) over three levels"""
+        st, hw = [], []
+        for lvl in range(3):
+            e = entries.get(lvl)
+            e = [] if e is None else (e if isinstance(e, list) else [e])
+            kinds = {k: h for k, h in e}
+            st.append("both" if len(kinds) == 2 else ("pyscn" if "pyscn" in kinds else ("tool" if "tool" in kinds else "none")))
+            hw.append([kinds.get("pyscn", "reg"), kinds.get("tool", "reg")])
+        return tuple(st), hw
+
+    k = 0
+    # 1. one file, through a link: every level x kind x way of linking
+    for lvl in range(3):
+        for kind in ("pyscn", "tool"):
+            for how in LINK_HOWS:
+                st, hw = chain({lvl: (kind, how)})
+                from_cwds(st, hw, k)
+                k += 1
+    # 2. two levels: nearer link / farther regular, nearer regular / farther link, both links  (tool near + pyscn far is the F24 layout: not judged)
+    for (i, j) in ((0, 1), (1, 2), (0, 2)):
+        for nk, fk in (("pyscn", "pyscn"), ("pyscn", "tool"), ("tool", "tool")):
+            for near_link, far_link in ((True, False), (False, True), (True, True)):
+                hows_n = LINK_HOWS if thorough else [LINK_HOWS[k % 4]]
+                for hn in hows_n:
+                    st, hw = chain({i: (nk, hn if near_link else "reg"), j: (fk, LINK_HOWS[(k + 1) % 4] if far_link else "reg")})
+                    from_cwds(st, hw, k)
+                    k += 1
+    # 3. one directory, both names: linked .pyscn.toml beside regular pyproject.toml, the reverse, both linked
+    for lvl in (0, 1, 2):
+        for pl, tl in ((True, False), (False, True), (True, True)):
+            for hp in (LINK_HOWS if (thorough or (pl and not tl and lvl == 0)) else [LINK_HOWS[k % 4]]):
+                st, hw = chain({lvl: [("pyscn", hp if pl else "reg"), ("tool", LINK_HOWS[(k + 2) % 4] if tl else "reg")]})
+                from_cwds(st, hw, k)
+                k += 1
+    # 4. nothing at or above the target: the working directory's chain, with links
+    for cst, chw in ((("pyscn", "none"), [["rel_out", "reg"], None]), (("none", "tool"), [None, ["reg", "abs"]]), (("both", "none"), [["chain", "reg"], None]),
+                     (("both", "pyscn"), [["reg", "rel_in"], ["abs", "reg"]]), (("none", "pyscn"), [None, ["rel_in", "reg"]])):
+        for cmd in ("analyze", "check"):
+            cs.append(mk(("none", "none", "none"), None, cwd=cst, hows_c=chw, cmd=cmd))
+    # 5. --config: a link to the file; a directory whose files are links; a directory named through a link; a name that names nothing
+    for n, how in enumerate(LINK_HOWS):
+        for cmd in (("analyze", "check") if thorough else (("analyze", "check")[n % 2],)):
+            cs.append(mk(("pyscn", "none", "tool"), None, explicit="file", explicit_how=how, cmd=cmd, target_file=False))
+            cs.append(mk(("none", "none", "none"), None, cwd=("pyscn", "none"), explicit="file", explicit_how=how, cmd=cmd, target_file=False))
+    for n, (est, ehw) in enumerate(((["pyscn", "none"], [["rel_out", "reg"], None]), (["none", "tool"], [None, ["reg", "chain"]]),
+                                   (["both", "pyscn"], [["abs", "reg"], ["reg", "reg"]]), (["both", "none"], [["reg", "rel_in"], None]))):
+        for via in (False, True):
+            cs.append(mk(("pyscn", "none", "none"), None, explicit=est, hows_e=ehw, exdir_via_link=via, cmd=("analyze", "check")[(n + via) % 2], target_file=False))
+    for n, kind in enumerate(("dangling", "loop")):
+        for cmd in ("analyze", "check"):
+            cs.append(mk(("pyscn", "none", "none"), None, explicit="missing", explicit_how=kind, cmd=cmd, target_file=False))
+    # 6. negative names on top of regular files: at the nearer level with the real file further up, beside the other kind in one directory
+    for kind in NEG_KINDS:
+        for name in ("pyscn", "pyproject"):
+            other = "tool" if name == "pyscn" else "pyscn"
+            layouts = [(("none", "pyscn", "none"), 0), (("none", "tool", "none"), 0), (("none", "none", "pyscn"), 1), (("none", "none", "tool"), 0),
+                       ((other, "none", "none"), 0), (("none", other, "none"), 1), (("none", "none", "none"), 0)]
+            for st, lvl in layouts:
+                from_cwds(st, None, k, neg=[["target", lvl, name, kind]])
+                k += 1
+    return cs
+
+
+def neg_tags(case):
+    where, lvl, name, kind = case["neg"][0]
+    return {"part": "filetype", "negative": kind, "name": CONFIG_NAMES[name]}
 
 
 # ----------------------------------------------------------------------------------------------
@@ -672,7 +841,7 @@ def main(tier):
         oimpl = list(ex.map(run_option_case, [(i, o, fl, kv, st, root) for i, (o, fl, kv, st) in enumerate(ocases)]))
 
     # ---- (B) discovery ---------------------------------------------------------------------------
-    dcases = discovery_cases(rng, thorough)
+    dcases = discovery_cases(rng, thorough) + filetype_cases(rng, thorough)
     with ThreadPoolExecutor(max_workers=16) as ex:
         dimpl = list(ex.map(run_discovery_case, [(i, c, root) for i, c in enumerate(dcases)]))
 
@@ -798,6 +967,7 @@ def main(tier):
 
     # ---- decide (B) ------------------------------------------------------------------------------
     n_f24 = 0
+    ft_stats, neg_groups = {}, {}
     for idx, (case, impl) in enumerate(zip(dcases, dimpl)):
         seen.add(("disc", json.dumps(case, sort_keys=True)))
         default = 0 if case["cmd"] == "analyze" else 10
@@ -822,6 +992,44 @@ def main(tier):
                 got = "none"
         if f24:
             n_f24 += 1
+        if impl.get("crash"):
+            n_spec_bad += 1
+            ck.violation("%s %s: pyscn crashed (exit %s) on this configuration layout" % (case["cmd"], " ".join(impl["argv"][1:]), impl["rc"]), replay)
+            continue
+        if case.get("filetype"):
+            for hl in (case.get("hows") or {}).values():
+                for pair in hl:
+                    for h in pair or []:
+                        if h != "reg":
+                            ft_stats["links_" + h] = ft_stats.get("links_" + h, 0) + 1
+            if case.get("explicit_how"):
+                ft_stats["explicit_" + case["explicit_how"]] = ft_stats.get("explicit_" + case["explicit_how"], 0) + 1
+            if case.get("exdir_via_link"):
+                ft_stats["explicit_directory_via_link"] = ft_stats.get("explicit_directory_via_link", 0) + 1
+        if case.get("neg"):
+            # a name that is no configuration file (link to nothing / to itself, directory): the property only says that it is not "the
+            # configuration file" of that place: it is passed over (the layout without it decides) or the run is refused; the same from every cwd
+            nt = neg_tags(case)
+            ft_stats["negative_%s_%s" % (nt["negative"], nt["name"])] = ft_stats.get("negative_%s_%s" % (nt["negative"], nt["name"]), 0) + 1
+            refused = impl["rc"] != 0 and impl["got"] is None and re.search(r"(?i)config|toml", impl["stderr"]) is not None
+            outcome = "refused" if refused else ("passed-over" if got == sv else "other:%s" % (impl["ids"].get(str(got), "defaults" if got == default else got),))
+            gkey = json.dumps([case["cmd"], case["target"], case["target_file"], case["neg"]])
+            if sv != default:      # with the defaults expected, "passed over" and "defaults in force" cannot be told apart
+                neg_groups.setdefault(gkey, []).append((outcome, replay))
+            if f24 or outcome in ("refused", "passed-over"):
+                continue
+            tags = dict(nt, outcome="defaults" if got == default else "other")
+            e = ck.match_known(tags)
+            if e:
+                n_known += 1
+                ck.known_finding(e)
+            else:
+                n_spec_bad += 1
+                if n_spec_bad <= 6:
+                    ck.violation("%s %s: %s named %s is no configuration file, yet the configuration in force has value %s (%s); without it the rule says %s (%s)"
+                                 % (case["cmd"], " ".join(impl["argv"][1:]), "a " + nt["negative"] + (" link" if nt["negative"] != "dir" else "ectory"), nt["name"],
+                                    got, impl["ids"].get(str(got), "defaults" if got == default else "?"), sv, ssrc), replay)
+            continue
         bad = None
         if not f24 and got != sv:
             bad = "configuration in force has value %s (%s), the rule says %s (%s)" % (got, impl["ids"].get(str(got), "defaults" if got == default else "?"),
@@ -841,6 +1049,14 @@ def main(tier):
             ck.notes.append(msg)
             if not bad and n_tie_bad <= 3:
                 ck.broken_ties.append(msg)
+
+    # the same layout with a negative name, seen from several working directories: one outcome
+    for gkey, lst in sorted(neg_groups.items()):
+        outs = sorted({o for o, _ in lst})
+        if len(outs) > 1:
+            n_spec_bad += 1
+            ck.violation("the outcome for a layout with a name that is no configuration file depends on the working directory: %s" % outs,
+                         {"layout": json.loads(gkey), "runs": [r for _, r in lst]})
 
     # ---- decide (C) ------------------------------------------------------------------------------
     for r in init_res:
@@ -882,7 +1098,11 @@ def main(tier):
         "distinct_nontrivial": len(seen) + kstats.get("key_cases", 0) + kstats.get("explicit_config_cases", 0),
         "rule": "one evaluation = one run of the real pyscn binary (analyze --json / check) on a generated project + config layout; the effective "
                 "value is read from the report's config echo (check: the printed limit) and from the surviving items, and compared with eff / "
-                "spec_resolve and with the Coq model; the keys without a flag are judged under a discovered file and under an explicit --config file "
+                "spec_resolve and with the Coq model; every discovery place holds its file as a regular file and through symbolic links (relative in / "
+                "out of the project, absolute, chained), alone, nearer / further than a regular file, beside the other kind, under --config "
+                "<link> and --config <directory (through a link)>, from several working directories, decided like the regular-file layout; "
+                "names that are no configuration file (dangling link, self link, directory) must be passed over or refused, independent of "
+                "the cwd, without a crash; the keys without a flag are judged under a discovered file and under an explicit --config file "
                 "(alone, against a discovered file with another value, and not mentioning the key while the discovered file does: the explicit "
                 "file is the one in force for every key, observed by the echo, by a refusal, and for [output] format / directory by the extension "
                 "/ place of the report written); distinct = distinct (option, flag value, file value, file style) or discovery layout or "
@@ -892,6 +1112,9 @@ def main(tier):
                                "discovery_cwd_elsewhere": sum(1 for c in dcases if c["cwd"] is not None),
                                "discovery_target_is_file": sum(1 for c in dcases if c["target_file"]),
                                "discovery_explicit": sum(1 for c in dcases if c["explicit"] is not None),
+                               "discovery_file_type_cases": sum(1 for c in dcases if c.get("filetype")),
+                               "discovery_file_type_negative_cases": sum(1 for c in dcases if c.get("neg")),
+                               "discovery_file_types": dict(sorted(ft_stats.items())),
                                "init_projects": len(init_res), "flag_values_outside_the_domain": n_out_of_domain,
                                "file_only_keys": kstats},
         "disagreements_checked": n_spec_bad + n_tie_bad + n_known + n_items_bad + kstats.get("spec_bad", 0) + kstats.get("tie_bad", 0) + kstats.get("known", 0),
